@@ -305,3 +305,100 @@ pub fn within(err: B, exact: B, sh: u32, k: fn(B) -> B) -> bool {
     }
     e.shl(sh).ule(k(exact.abs()))
 }
+
+#[cfg(test)]
+mod tests {
+    use super::*;
+
+    fn lcg(s: &mut u64) -> u64 {
+        *s = s.wrapping_mul(6364136223846793005).wrapping_add(1442695040888963407);
+        *s ^ (*s >> 29)
+    }
+
+    fn to_i128(b: B) -> i128 {
+        // only valid when value fits
+        let lo = b.0[0] as i128;
+        if b.is_neg() {
+            assert!(b.0[1] == u128::MAX && b.0[4] == u128::MAX);
+        } else {
+            assert!(b.0[1] == 0 && b.0[4] == 0);
+        }
+        lo
+    }
+
+    #[test]
+    fn small_values_match_i128() {
+        let mut s = 12345u64;
+        for _ in 0..20000 {
+            let a = (lcg(&mut s) % (1 << 40)) as i64 - (1 << 39);
+            let b = (lcg(&mut s) % (1 << 40)) as i64 - (1 << 39);
+            let fa = a as f64;
+            let fb = b as f64;
+            let ia = sc(fa, 0).unwrap();
+            let ib = sc(fb, 0).unwrap();
+            assert_eq!(to_i128(ia), a as i128);
+            assert_eq!(to_i128(ia.add(ib)), a as i128 + b as i128);
+            assert_eq!(to_i128(ia.sub(ib)), a as i128 - b as i128);
+            assert_eq!(to_i128(prod(fa, fb, 0).unwrap()), a as i128 * b as i128);
+            assert_eq!(ia.scmp(ib), (a as i128).cmp(&(b as i128)));
+            assert_eq!(to_i128(ia.abs()), (a as i128).abs());
+            assert_eq!(to_i128(ia.times3()), 3 * a as i128);
+            assert_eq!(to_i128(ia.times5()), 5 * a as i128);
+            assert_eq!(to_i128(ia.times13()), 13 * a as i128);
+            // fractional scaling: a / 2^k with emin = -k
+            let k = (lcg(&mut s) % 60) as i32;
+            let x = fa * pow2f(-k);
+            assert_eq!(to_i128(sc(x, -k).unwrap()), a as i128);
+            if a % 2 != 0 {
+                assert!(sc(x, -k + 1).is_none());
+            }
+        }
+    }
+
+    fn pow2f(k: i32) -> f64 {
+        f64::from_bits(((k + 1023) as u64) << 52)
+    }
+
+    #[test]
+    fn shifts_roundtrip() {
+        let mut s = 99u64;
+        for _ in 0..5000 {
+            let m = ((lcg(&mut s) as u128) << 64 | lcg(&mut s) as u128) >> (lcg(&mut s) % 100);
+            let sh = (lcg(&mut s) % 500) as u32;
+            if let Some(b) = B::from_shl(m, sh) {
+                assert_eq!(b.shr(sh), B::from_shl(m, 0).unwrap());
+                assert_eq!(B::from_shl(m, 0).unwrap().shl(sh), b);
+                assert!(!b.is_neg());
+                assert_eq!(b.neg().neg(), b);
+                assert_eq!(b.neg().abs(), b);
+                if m != 0 {
+                    assert!(b.neg().is_neg());
+                    assert_eq!(B::ZERO.ucmp(b), Ordering::Less);
+                }
+                let k = (lcg(&mut s) % 600) as u32;
+                assert_eq!(b.clear_low(k).shr(k), b.shr(k));
+            } else {
+                assert!(m != 0 && 128 - m.leading_zeros() + sh > BITS - 2);
+            }
+        }
+    }
+
+    #[test]
+    fn subnormal_and_extremes() {
+        let tiny = f64::from_bits(1); // 2^-1074
+        assert_eq!(sc(tiny, -1074).unwrap(), B([1, 0, 0, 0, 0]));
+        assert_eq!(sc(-tiny, -1074).unwrap(), B([1, 0, 0, 0, 0]).neg());
+        assert!(sc(tiny, -1073).is_none());
+        assert_eq!(sc(1.0, -52).unwrap(), B([1 << 52, 0, 0, 0, 0]));
+        assert_eq!(sc(1.0, 0).unwrap(), B([1, 0, 0, 0, 0]));
+        assert_eq!(sc(0.0, 0).unwrap(), B::ZERO);
+        assert_eq!(sc(-0.0, 0).unwrap(), B::ZERO);
+        assert_eq!(sc(1.5, -1).unwrap(), B([3, 0, 0, 0, 0]));
+        assert!(sc(1.5, 0).is_none());
+        // within: |err| * 2^sh <= 3|exact|
+        let e = B([3, 0, 0, 0, 0]);
+        let x = B([1 << 10, 0, 0, 0, 0]);
+        assert!(within(e, x, 10, B::times3));
+        assert!(!within(e, x, 11, B::times3));
+    }
+}
